@@ -1,6 +1,6 @@
 CHECK = {
     "suites": [suite("allocate", "c03", 6000, 600000, stdin=True)],
-    "lean_sources": ["ClusterVerif/Model/C03.lean", "ClusterVerif/Spec/C03.lean", "ClusterVerif/Lemmas/C03.lean"],
+    "lean_sources": ["ClusterVerif/Model/C03.lean", "ClusterVerif/Spec/C03.lean", "ClusterVerif/Lemmas/C03.lean", "ClusterVerif/Lemmas/C03Sort.lean"],
     "rule": "cases = (strategy, factor pair, 0-8 peers each in one of 5 metric states, current/exclusion/priority lists) "
             "drawn from one splitmix64 stream per case index; non-trivial = positive factors or everywhere (-1,-1); distinct by case line",
     "trusted_base": ["metrics.Store-backed monitor stands in for pubsubmon (LatestValid is the real code)",
